@@ -170,3 +170,16 @@ func (c *RefCodec) PeekHeader(msg []byte) (sid uint32, seq uint64, closing uint8
 	salsa20.XORKeyStream(hdr, msg[:14], msg[len(msg)-8:], &c.key)
 	return binary.BigEndian.Uint32(hdr[0:4]), binary.BigEndian.Uint64(hdr[4:12]), hdr[12], hdr[13], true
 }
+
+// Authentic reports whether msg authenticates under the codec's key: header unmasked with the trailing 8
+// bytes, AEAD opened with header[:12] as nonce. Bytes 12 and 13 of the header do not take part (that is the
+// Cloak v2 design, see known finding F-C11). Always false for the plain method.
+func (c *RefCodec) Authentic(msg []byte) bool {
+	if c.aead == nil || len(msg) < 14+c.aead.Overhead() {
+		return false
+	}
+	hdr := make([]byte, 14)
+	salsa20.XORKeyStream(hdr, msg[:14], msg[len(msg)-8:], &c.key)
+	_, err := c.aead.Open(nil, hdr[:12], msg[14:], nil)
+	return err == nil
+}
